@@ -66,7 +66,7 @@ func buildProgram(t Tree, start bool, rot, shape int) *program {
 		var locals []int
 		next := m.NumImportedFuncs()
 		for i := range t {
-			if !t.isHost(i) && p.lvl[i] == l {
+			if !t.isHost(i) && !t.isCallAgain(i) && p.lvl[i] == l {
 				fidx[i] = next
 				next++
 				locals = append(locals, i)
@@ -103,9 +103,11 @@ func buildProgram(t Tree, start bool, rot, shape int) *program {
 			for _, c := range t.children(i) {
 				cs := p.sigs[c]
 				for k, ty := range cs.P {
-					a.Const(ty, paramRaw(c, k, ty))
+					a.Const(ty, paramRaw(t.target(c), k, ty))
 				}
 				switch t[c].Kind {
+				case 'c':
+					a.Call(fidx[t.target(c)])
 				case 'd', 'm', 'h':
 					a.Call(fidx[c])
 				case 'i':
